@@ -83,6 +83,7 @@ extern "C" int LLVMFuzzerTestOneInput(const uint8_t *data, size_t size) {
     CaseResult r;
     try {
         r = ENGINE.run(c, t, canon);
+        mem_mode_filter(c, r);
     } catch (const HarnessBug &e) {
         fprintf(stderr, "HARNESS-BUG %s\n", e.what());
         write_stats();
